@@ -367,7 +367,9 @@ type c20POp struct {
 	Limit  int    `json:"limit,omitempty"`
 	Fault  string `json:"fault,omitempty"` // "", "has:i", "commit:i", "sync"
 	Back   int    `json:"back,omitempty"`
+	FullOf int    `json:"full_prefix_of_key,omitempty"` // 1 + id of the pool key whose complete 256-bit identifier is the prefix (0: Prefix is used)
 	keys   []c20Key
+	full   *c20Key
 }
 
 func c20CoqFault(f string) string {
@@ -393,11 +395,11 @@ func (o c20POp) coq() string {
 	case "empty":
 		return fmt.Sprintf("OEmpty %s", c20CoqFault(o.Fault))
 	case "get":
-		return fmt.Sprintf("OGet %s", vfBits(o.Prefix))
+		return fmt.Sprintf("OGet %s", c20CoqPrefix(o))
 	case "count":
-		return fmt.Sprintf("OCount %s (%d)%%Z", vfBits(o.Prefix), o.Limit)
+		return fmt.Sprintf("OCount %s (%d)%%Z", c20CoqPrefix(o), o.Limit)
 	case "contains":
-		return fmt.Sprintf("OContains %s", vfBits(o.Prefix))
+		return fmt.Sprintf("OContains %s", c20CoqPrefix(o))
 	case "restart":
 		return "ORestart"
 	case "crash":
@@ -429,6 +431,36 @@ func (o c20Obs) coq() string {
 		r = "BBool " + vfBool(o.Bool)
 	}
 	return fmt.Sprintf("{| so_res := %s; so_size := (%d)%%Z |}", r, o.Size)
+}
+
+// c20Full: one query in eight asks for the complete 256-bit identifier of a pool key (stored or
+// not): a prefix too, matched by that key alone.
+func c20Full(r *vfRand, pool []c20Key, o c20POp) c20POp {
+	if len(pool) > 0 && r.Chance(12) {
+		k := pool[r.Intn(len(pool))]
+		o.full, o.FullOf, o.Prefix = &k, k.id+1, ""
+	}
+	return o
+}
+
+func c20GoPrefix(o c20POp) string {
+	if o.full != nil {
+		return c20FullBits(o.full)
+	}
+	return o.Prefix
+}
+
+func c20FullBits(k *c20Key) string { return key.BitString(keyspace.MhToBit256(k.h)) }
+
+func c20CoqPrefix(o c20POp) string {
+	if o.full != nil {
+		v := 0
+		for _, ch := range o.full.bits {
+			v = v*2 + int(ch-'0')
+		}
+		return fmt.Sprintf("(fullp %d %d)", v, o.full.id)
+	}
+	return vfBits(o.Prefix)
 }
 
 func c20Prefix(r *vfRand, pool []c20Key, maxLen int) string {
@@ -494,11 +526,11 @@ func c20GenPlain(r *vfRand, pool []c20Key, nops int, maxPfx int) []c20POp {
 		case x < 46:
 			ops = append(ops, c20POp{Kind: "empty", Fault: fault()})
 		case x < 60:
-			ops = append(ops, c20POp{Kind: "get", Prefix: c20Prefix(r, pool, maxPfx)})
+			ops = append(ops, c20Full(r, pool, c20POp{Kind: "get", Prefix: c20Prefix(r, pool, maxPfx)}))
 		case x < 72:
-			ops = append(ops, c20POp{Kind: "count", Prefix: c20Prefix(r, pool, maxPfx), Limit: r.Intn(6) - 1})
+			ops = append(ops, c20Full(r, pool, c20POp{Kind: "count", Prefix: c20Prefix(r, pool, maxPfx), Limit: r.Intn(6) - 1}))
 		case x < 82:
-			ops = append(ops, c20POp{Kind: "contains", Prefix: c20Prefix(r, pool, maxPfx)})
+			ops = append(ops, c20Full(r, pool, c20POp{Kind: "contains", Prefix: c20Prefix(r, pool, maxPfx)}))
 		case x < 90:
 			ops = append(ops, c20POp{Kind: "restart"})
 		default:
@@ -593,17 +625,17 @@ func c20RunPlain(ops []c20POp, ids map[string]int, pb, bs int) (obs []c20Obs, si
 				sig["empty-multibatch"] = true
 			}
 		case "get":
-			got, err := ks.Get(ctx, bitstr.Key(op.Prefix))
+			got, err := ks.Get(ctx, bitstr.Key(c20GoPrefix(*op)))
 			if err != nil {
 				o = c20Obs{Kind: "err"}
 			} else {
 				o = c20Obs{Kind: "keys", IDs: c20IDs(ids, got)}
-				if len(op.Prefix) > pb && len(got) > 0 {
+				if len(c20GoPrefix(*op)) > pb && len(got) > 0 {
 					sig["get-long-hit"] = true
 				}
 			}
 		case "count":
-			n, err := ks.CountKeysUpTo(ctx, bitstr.Key(op.Prefix), op.Limit)
+			n, err := ks.CountKeysUpTo(ctx, bitstr.Key(c20GoPrefix(*op)), op.Limit)
 			if err != nil {
 				o = c20Obs{Kind: "err"}
 			} else {
@@ -611,17 +643,17 @@ func c20RunPlain(ops []c20POp, ids map[string]int, pb, bs int) (obs []c20Obs, si
 				if op.Limit > 0 && n == op.Limit {
 					sig["count-capped"] = true
 				}
-				if len(op.Prefix) > pb && n > 0 {
+				if len(c20GoPrefix(*op)) > pb && n > 0 {
 					sig["count-long-hit"] = true
 				}
 			}
 		case "contains":
-			b, err := ks.ContainsPrefix(ctx, bitstr.Key(op.Prefix))
+			b, err := ks.ContainsPrefix(ctx, bitstr.Key(c20GoPrefix(*op)))
 			if err != nil {
 				o = c20Obs{Kind: "err"}
 			} else {
 				o = c20Obs{Kind: "bool", Bool: b}
-				if len(op.Prefix) > pb {
+				if len(c20GoPrefix(*op)) > pb {
 					if b {
 						sig["contains-long-hit"] = true
 					} else {
